@@ -629,7 +629,7 @@ func c02CommentNewline(c *Ctx) {
 	}
 	isIncNL := func(v ssa.Value) bool {
 		call, ok := v.(*ssa.Call)
-		return ok && call.Call.StaticCallee() != nil && call.Call.StaticCallee().Name() == "includingNewlines"
+		return ok && call.Call.StaticCallee() != nil && call.Call.StaticCallee() == c.P.LookupFunc("hclsyntax", "peeker.includingNewlines")
 	}
 	isTypeEq := func(k int64) func(ssa.Value) bool {
 		return func(v ssa.Value) bool {
